@@ -240,7 +240,9 @@ def prune_files_by_bounds(
     # double precision against the widened value: their filter values must
     # stay doubles here as well.
     float32_columns = {
-        str(f.get("name")) for f in schema.fields if f.get("type") == "float"
+        str(f.get("name")) for f in schema.fields
+        if (f.get("type") == "float"
+            or (isinstance(f.get("type"), dict) and f["type"].get("type") == "float"))
     }
     if float32_columns:
         expressions = [
@@ -261,7 +263,9 @@ def _as_float32(value: Any) -> Any:
     """Round a filter value (or each value of a list) to 32-bit float precision."""
     import struct
 
-    if isinstance(value, (list, tuple, set)):
+    if isinstance(value, (list, tuple, set, frozenset)) or (
+        hasattr(value, "__iter__") and not isinstance(value, (str, bytes, dict))
+    ):
         return [_as_float32(v) for v in value]
     if isinstance(value, bool) or not isinstance(value, (int, float)):
         return value
@@ -348,8 +352,16 @@ def _file_may_match(
             elif expr.op == FilterOp.IN:
                 # For IN: at least one value in the list must be in [file_min, file_max]
                 if expr.value:
+                    values = list(expr.value)
+                    # Float bounds ignore NaN, and the row-level is_in matches
+                    # NaN against NaN: a NaN in the value set may match rows
+                    # the bounds do not know about.
+                    if isinstance(file_min, float) and any(
+                        isinstance(v, float) and v != v for v in values
+                    ):
+                        continue
                     has_possible_match = any(
-                        file_min <= v <= file_max for v in expr.value
+                        file_min <= v <= file_max for v in values
                     )
                     if not has_possible_match:
                         return False
